@@ -6,19 +6,22 @@
    (C04); zstd/zlib/base64 decoding is the abstract [decode]; MD5 is the abstract [H].
    Executable definitions only. *)
 From Trzsz Require Export Base.Bytes.
+From Trzsz Require Import Gen.Consts.
 From Coq Require Import ZArith.
 
 Section Protocol.
 Variable digest : Type.
 Variable H : list byte -> digest.
 Variable deq : digest -> digest -> bool.
-(* the codec stack of this transfer, applied to the concatenation of the DATA frames *)
-Variable decode : list byte -> option (list byte).
+(* the codec stack of this transfer (pipelineDecodeData), a streaming reader over the DATA frames
+   received before the finish flag, in order *)
+Variable decode : list (list byte) -> option (list byte).
 
 (* what the receiver reads for one file, after the SIZE line *)
 Inductive line :=
 | LData (frame : list byte)      (* #DATA: with this (still encoded) payload; [] = finish flag *)
 | LMd5 (d : digest)              (* #MD5: *)
+| LKeep                          (* #DATA:= the keep-alive of a pausing peer (protocol >= 3): recvCheckV2 reads again *)
 | LOther.                        (* anything else: wrong type, undecodable, fail line, timeout *)
 
 Inductive verdict :=
@@ -26,27 +29,56 @@ Inductive verdict :=
 | Reject                         (* error path *)
 | Waiting.                       (* ran out of delivered lines: blocks, then times out = error *)
 
-(* protocol >= 2 (recvFileDataV2): frames are collected until the empty finish frame;
-   the decoded stream is written; pipelineSaveData demands step = size; then the MD5 line
-   must equal the digest of what was written *)
-Fixpoint recv_v2 (size : Z) (acc : list byte) (ls : list line) : verdict :=
+(* protocol >= 2 (recvFileDataV2): frames are collected until the empty finish frame; the
+   decoded stream is written; then the MD5 line must equal the digest of the DECODED STREAM.
+
+   [recv_v2_old] is the code as it was before the fix d144b66: the size check was not atomic.
+   pipelineSaveData demands step = size, but only at the END of the stream; pipelineSendAck - the
+   stage that reports completion (ctx.succ) - polls savedSteps once the finish flag has been read
+   and reports as soon as it EQUALS the announced size.  When the stream is longer than announced
+   and the saved step passes through [size] (it starts at 0: always so for size = 0), the
+   acknowledger could win: recvFileDataV2 returned the digest of the WHOLE stream (the hashing
+   stage runs to the end), while the saver was stopped (ctx cancelled, file closed) after a prefix
+   of at least [size] bytes.  [early] is that schedule: Some k = the acknowledger wins and k bytes
+   reach the file; None = the saver's check decides.
+
+   [recv_v2] is the code as it is: after ctx.succ, recvFileDataV2 waits for the saver (saveDone)
+   and returns the saver's error if its check failed - whether the source does so is read from
+   the source (Consts.c02_succ_waits_saver); then the schedule no longer matters. *)
+Variable early : option nat.
+
+Definition md5_verdict (w written : list byte) (rest : list line) : verdict :=
+  match rest with
+  | LMd5 d :: _ => if deq d (H w) then Accept written else Reject
+  | [] => Waiting
+  | _ => Reject
+  end.
+
+Fixpoint recv_v2_sched (early : option nat) (size : Z) (acc : list (list byte)) (ls : list line) : verdict :=
   match ls with
   | [] => Waiting
   | LData [] :: rest =>
     match decode acc with
     | None => Reject
     | Some w =>
-      if (Z.of_nat (length w) =? size)%Z then
-        match rest with
-        | LMd5 d :: _ => if deq d (H w) then Accept w else Reject
-        | [] => Waiting
-        | _ => Reject
+      if (Z.of_nat (length w) =? size)%Z then md5_verdict w w rest
+      else
+        match early with
+        | Some k =>
+          if (0 <=? size)%Z && (size <? Z.of_nat (length w))%Z && (size <=? Z.of_nat k)%Z && (k <=? length w)%nat
+          then md5_verdict w (firstn k w) rest
+          else Reject
+        | None => Reject
         end
-      else Reject
     end
-  | LData f :: rest => recv_v2 size (acc ++ f) rest
+  | LData f :: rest => recv_v2_sched early size (acc ++ [f]) rest
+  | LKeep :: rest => recv_v2_sched early size acc rest
   | _ => Reject
   end.
+
+Definition recv_v2_old : Z -> list (list byte) -> list line -> verdict := recv_v2_sched early.
+Definition recv_v2 : Z -> list (list byte) -> list line -> verdict :=
+  recv_v2_sched (if Consts.c02_succ_waits_saver then None else early).
 
 (* protocol 1 (recvFileData): every DATA line is decoded on its own and appended while
    step < size; there is NO check that step = size afterwards (the loop may overshoot);
@@ -82,10 +114,13 @@ Inductive ack :=
 | AFrame (len step : Z)     (* #SUCC:len/step *)
 | AFinal (step : Z)         (* #SUCC:step *)
 | ADigest (d : digest)      (* #SUCC:<digest> answering the MD5 line *)
+| AKeep                     (* #SUCC:= the keep-alive of a pausing peer (protocol >= 3): recvCheckV2 reads again;
+                               checkBinary (the digest echo) does NOT skip it *)
 | AOther.
 
 Fixpoint send_final (size : Z) (mine : digest) (as_ : list ack) : bool :=
   match as_ with
+  | AKeep :: rest => send_final size mine rest
   | AFinal step :: rest =>
     if (step >? size)%Z then false
     else if (step =? size)%Z then
@@ -94,12 +129,25 @@ Fixpoint send_final (size : Z) (mine : digest) (as_ : list ack) : bool :=
   | _ => false
   end.
 
-Fixpoint send_v2 (size : Z) (mine : digest) (sent : list Z) (as_ : list ack) : bool :=
+Fixpoint send_v2 (size : Z) (mine : digest) (sent : list Z) (as_ : list ack) {struct as_} : bool :=
   match sent with
   | [] => send_final size mine as_
   | n :: sent' =>
     match as_ with
+    | AKeep :: rest => send_v2 size mine sent rest
     | AFrame len _ :: rest => if (len =? n)%Z then send_v2 size mine sent' rest else false
+    | _ => false
+    end
+  end.
+
+(* protocol 1 (sendFileData, sendFileMD5): every chunk is acknowledged by its decoded length
+   (checkInteger) before the next one is sent; then the echoed digest *)
+Fixpoint send_v1 (mine : digest) (sent : list Z) (as_ : list ack) : bool :=
+  match sent with
+  | [] => match as_ with ADigest d :: _ => deq d mine | _ => false end
+  | n :: sent' =>
+    match as_ with
+    | AFinal k :: rest => if (k =? n)%Z then send_v1 mine sent' rest else false
     | _ => false
     end
   end.
